@@ -171,6 +171,8 @@ Proof. rewrite !map2_combine. apply (qsum_map_div (fun p => f (fst p) (snd p))).
 
 Lemma var_unbiased_Vhat a : var_unbiased a = Vhat a.
 Proof. reflexivity. Qed.
+Lemma var_pop_Vpop a : var_pop a = Vpop a.
+Proof. reflexivity. Qed.
 Lemma np_mean_mean a : np_mean a = mean a.
 Proof. reflexivity. Qed.
 Lemma np_var_Vpop a : np_var a = Vpop a.
@@ -197,7 +199,15 @@ Lemma homma_formula : homma outputs n d = map (homma_spec ya) ycs.
 Proof.
   unfold homma, outputs. rewrite (split_abc_blocks ya yb ycs n d Ha Hb Hd Hc).
   rewrite <- Hd, <- (map_nth_seq (homma_spec ya) ycs). apply map_ext. intro i.
-  unfold homma_spec, mean_prod. rewrite var_unbiased_Vhat, np_mean_mean, Ha, qinv_mul_l.
+  unfold homma_spec, mean_prod. rewrite var_pop_Vpop, np_mean_mean, Ha, qinv_mul_l.
+  unfold vmul, sq, Qcdiv. ring.
+Qed.
+
+Lemma homma_orig_formula : homma_orig outputs n d = map (homma_orig_spec ya) ycs.
+Proof.
+  unfold homma_orig, outputs. rewrite (split_abc_blocks ya yb ycs n d Ha Hb Hd Hc).
+  rewrite <- Hd, <- (map_nth_seq (homma_orig_spec ya) ycs). apply map_ext. intro i.
+  unfold homma_orig_spec, mean_prod. rewrite var_unbiased_Vhat, np_mean_mean, Ha, qinv_mul_l.
   unfold vmul, sq, Qcdiv. ring.
 Qed.
 
@@ -205,7 +215,15 @@ Lemma saltelli_formula : saltelli outputs n d = map (saltelli_spec ya) ycs.
 Proof.
   unfold saltelli, outputs. rewrite (split_abc_blocks ya yb ycs n d Ha Hb Hd Hc).
   rewrite <- Hd, <- (map_nth_seq (saltelli_spec ya) ycs). apply map_ext. intro i.
-  unfold saltelli_spec, mean_prod. rewrite var_unbiased_Vhat, np_mean_mean, Ha, qinv_mul_l.
+  unfold saltelli_spec, mean_prod. rewrite var_pop_Vpop, np_mean_mean, Ha, qinv_mul_l.
+  unfold vmul, sq. reflexivity.
+Qed.
+
+Lemma saltelli_orig_formula : saltelli_orig outputs n d = map (saltelli_orig_spec ya) ycs.
+Proof.
+  unfold saltelli_orig, outputs. rewrite (split_abc_blocks ya yb ycs n d Ha Hb Hd Hc).
+  rewrite <- Hd, <- (map_nth_seq (saltelli_orig_spec ya) ycs). apply map_ext. intro i.
+  unfold saltelli_orig_spec, mean_prod. rewrite var_unbiased_Vhat, np_mean_mean, Ha, qinv_mul_l.
   unfold vmul, sq. reflexivity.
 Qed.
 
@@ -246,6 +264,15 @@ Proof.
   unfold vmul. rewrite map2_map_l, map2_map_r. exact (qinv_mul_l _ _).
 Qed.
 
+Lemma glen_orig_formula sqrt : glen_orig sqrt outputs n d = map (glen_orig_spec sqrt ya) ycs.
+Proof.
+  unfold glen_orig, outputs. rewrite (split_abc_blocks ya yb ycs n d Ha Hb Hd Hc).
+  rewrite <- Hd. rewrite <- (map_nth_seq (glen_orig_spec sqrt ya) ycs). apply map_ext_in. intros i Hi.
+  apply in_seq in Hi. rewrite !(nthq_map _ ycs []) by lia.
+  unfold glen_orig_spec. rewrite !np_var_Vpop, !np_mean_mean, Ha. f_equal. f_equal.
+  unfold vmul. rewrite map2_map_l, map2_map_r. exact (qinv_mul_l _ _).
+Qed.
+
 Lemma glen_radicands_formula : glen_radicands outputs n d = map (fun yc => Vpop ya * Vpop yc) ycs.
 Proof.
   unfold glen_radicands, outputs. rewrite (split_abc_blocks ya yb ycs n d Ha Hb Hd Hc).
@@ -254,7 +281,7 @@ Proof.
 Qed.
 End Formulas.
 
-Lemma homma_eq_saltelli ya yc : Vhat ya <> 0 -> homma_spec ya yc = saltelli_spec ya yc.
+Lemma homma_eq_saltelli ya yc : Vpop ya <> 0 -> homma_spec ya yc = saltelli_spec ya yc.
 Proof. intro H. unfold homma_spec, saltelli_spec. field. exact H. Qed.
 (* ================= part 3: properties of the Jansen estimator ================= *)
 Lemma Qc_div_nonneg a b : 0 <= a -> 0 <= b -> 0 <= a / b.
@@ -602,3 +629,114 @@ Proof.
   exists ([0; 1; two] ++ [0; 0; 0] ++ [1; 0; two]), 3%nat, 1%nat. split; [reflexivity|].
   intro E. apply (f_equal (map (fun x => Qnum (this x)))) in E. vm_compute in E. discriminate.
 Qed.
+
+(* ================= part 7: Homma, Saltelli, Janon, Glen give exactly 0 on an inert dimension ================= *)
+Lemma qsum_centred_sq m l :
+  qsum (map (fun v => (v - m) * (v - m)) l)
+  = qsum (map (fun v => v * v) l) - m * qsum l - m * qsum l + qn (length l) * (m * m).
+Proof.
+  induction l as [|x l IH]; cbn [map qsum length].
+  - replace (qn 0) with 0 by (apply Qc_is_canon; reflexivity). ring.
+  - rewrite IH, qn_S. ring.
+Qed.
+
+Lemma Vpop_nonzero_length y : Vpop y <> 0 -> (1 <= length y)%nat.
+Proof.
+  intro H. destruct y as [|v y]; [|cbn [length]; lia]. exfalso. apply H. unfold Vpop. cbn [map qsum].
+  unfold Qcdiv. ring.
+Qed.
+
+(* the empirical covariance of f(A) with itself is its population variance *)
+Lemma self_cov_Vpop ya : Vpop ya <> 0 -> mean_prod ya ya - mean ya * mean ya = Vpop ya.
+Proof.
+  intro HV. pose proof (qn_neq0 _ (Vpop_nonzero_length ya HV)) as HN.
+  unfold mean_prod, Vpop. rewrite map2_same, qsum_centred_sq. unfold mean. field. exact HN.
+Qed.
+
+Lemma homma_zero_inert ya : Vpop ya <> 0 -> homma_spec ya ya = 0.
+Proof. intro HV. unfold homma_spec. rewrite self_cov_Vpop by exact HV. unfold Qcdiv. ring. Qed.
+
+Lemma saltelli_zero_inert ya : Vpop ya <> 0 -> saltelli_spec ya ya = 0.
+Proof. intro HV. unfold saltelli_spec. rewrite self_cov_Vpop by exact HV. field. exact HV. Qed.
+
+Lemma two_is_11 : two = 1 + 1.
+Proof. apply Qc_is_canon. reflexivity. Qed.
+Lemma two_neq0 : two <> 0.
+Proof. intro E. apply (f_equal (fun x => Qnum (this x))) in E. vm_compute in E. discriminate. Qed.
+
+Lemma add_self_half a : (a + a) / two = a.
+Proof.
+  unfold Qcdiv. transitivity (a * ((1 + 1) * / two)); [ring|].
+  rewrite <- two_is_11, Qcmult_inv_r by apply two_neq0. ring.
+Qed.
+
+Lemma janon_zero_inert ya : Vpop ya <> 0 -> janon_published ya ya = 0.
+Proof.
+  intro HV. pose proof (qn_neq0 _ (Vpop_nonzero_length ya HV)) as HN.
+  assert (Em : janon_mean ya ya = mean ya).
+  { unfold janon_mean, mean. f_equal. rewrite map2_same.
+    f_equal. rewrite <- (map_id ya) at 2. apply map_ext. intro a. apply add_self_half. }
+  assert (Es : qsum (map2 (fun a c => (a * a + c * c) / two) ya ya) / qn (length ya) - mean ya * mean ya = Vpop ya).
+  { rewrite <- (self_cov_Vpop ya HV). unfold mean_prod. f_equal. f_equal. rewrite !map2_same.
+    f_equal. apply map_ext. intro a. apply add_self_half. }
+  unfold janon_published. rewrite Em, Es, (self_cov_Vpop ya HV). field. exact HV.
+Qed.
+
+(* Glen: needs what a square root does on a square *)
+Lemma glen_zero_inert (sqrt : Qc -> Qc) ya :
+  Vpop ya <> 0 -> sqrt (Vpop ya * Vpop ya) = Vpop ya -> glen_spec sqrt ya ya = 0.
+Proof.
+  intros HV Hs. unfold glen_spec. rewrite Hs. rewrite map2_same. fold (Vpop ya). field. exact HV.
+Qed.
+
+(* the same on the executable models *)
+Section ZeroInert.
+Variables (ya yb : list Qc) (ycs : list (list Qc)) (n d i : nat).
+Hypothesis Ha : length ya = n.
+Hypothesis Hb : length yb = n.
+Hypothesis Hd : length ycs = d.
+Hypothesis Hc : forall c, In c ycs -> length c = n.
+Hypothesis Hi : (i < d)%nat.
+Hypothesis Hinert : nth i ycs [] = ya.
+Hypothesis HV : 0 < Vpop ya.
+
+Let HV0 : Vpop ya <> 0.
+Proof. intro E. rewrite E in HV. exact (Qclt_not_eq _ _ HV eq_refl). Qed.
+
+Lemma homma_model_zero_inert : nthq (homma (ya ++ yb ++ concat ycs) n d) i = 0.
+Proof. rewrite (homma_formula ya yb ycs n d Ha Hb Hd Hc), (nthq_map _ ycs []) by lia.
+  rewrite Hinert. apply homma_zero_inert. exact HV0. Qed.
+Lemma saltelli_model_zero_inert : nthq (saltelli (ya ++ yb ++ concat ycs) n d) i = 0.
+Proof. rewrite (saltelli_formula ya yb ycs n d Ha Hb Hd Hc), (nthq_map _ ycs []) by lia.
+  rewrite Hinert. apply saltelli_zero_inert. exact HV0. Qed.
+Lemma janon_model_zero_inert : nthq (janon (ya ++ yb ++ concat ycs) n d) i = 0.
+Proof. rewrite (janon_formula ya yb ycs n d Ha Hb Hd Hc), (nthq_map _ ycs []) by lia.
+  rewrite Hinert. apply janon_zero_inert. exact HV0. Qed.
+Lemma glen_model_zero_inert (sqrt : Qc -> Qc) :
+  (forall v, 0 <= v -> sqrt (v * v) = v) -> nthq (glen sqrt (ya ++ yb ++ concat ycs) n d) i = 0.
+Proof. intro Hs. rewrite (glen_formula ya yb ycs n d Ha Hb Hd Hc), (nthq_map _ ycs []) by lia.
+  rewrite Hinert. apply glen_zero_inert; [exact HV0 | apply Hs; apply Qclt_le_weak; exact HV]. Qed.
+End ZeroInert.
+
+(* records of the defects fixed in /repo: with the old normalisations an inert dimension did not get 0.
+   Witness f(A) = f(C_0) = [0; 1] (n = 2): Homma and Saltelli gave 1/2 = 1/n, Glen gave -1 = -1/(n-1). *)
+Lemma homma_zero_inert_refuted_orig :
+  exists ya yb, length ya = 2%nat /\ length yb = 2%nat /\ 0 < Vhat ya /\
+    nthq (homma_orig (ya ++ yb ++ concat [ya]) 2 1) 0 = half.
+Proof. exists [0; 1], [0; 0]. repeat split; try reflexivity; apply Qc_is_canon; vm_compute; reflexivity. Qed.
+
+Lemma saltelli_zero_inert_refuted_orig :
+  exists ya yb, length ya = 2%nat /\ length yb = 2%nat /\ 0 < Vhat ya /\
+    nthq (saltelli_orig (ya ++ yb ++ concat [ya]) 2 1) 0 = half.
+Proof. exists [0; 1], [0; 0]. repeat split; try reflexivity; apply Qc_is_canon; vm_compute; reflexivity. Qed.
+
+Lemma glen_zero_inert_refuted_orig :
+  exists (sqrt : Qc -> Qc) ya yb, length ya = 2%nat /\ length yb = 2%nat /\ 0 < Vpop ya /\
+    is_sqrt sqrt (Vpop ya * Vpop ya) /\ sqrt (Vpop ya * Vpop ya) = Vpop ya /\
+    nthq (glen_orig sqrt (ya ++ yb ++ concat [ya]) 2 1) 0 = - (1).
+Proof.
+  exists (sqrt_table [(q 1 16, q 1 4)]), [0; 1], [0; 0].
+  repeat split; try reflexivity; try (apply Qc_is_canon; vm_compute; reflexivity).
+  vm_compute. discriminate.
+Qed.
+
